@@ -153,6 +153,7 @@ structure Fn where
   hasBuf : Bool                -- an argument needs a bufferify clone (std::string), kept by every clone
   isCtor : Bool
   usesT : Bool                 -- `have_template_args`: result/argument of a class template parameter type
+  cppIf : Option Str           -- `cpp_if:` preprocessor condition of the declaration
   deriving Repr, DecidableEq
 
 structure Wrap where
@@ -195,6 +196,7 @@ structure Rec where
   isCtor : Bool
   key : Str               -- key in `overloaded_functions`
   hasDefault : Bool       -- a parameter of the declaration has a default value
+  cppIf : Option Str      -- cpp_if (shared by every clone)
   deriving Repr, DecidableEq
 
 /-- `clean_dictionary`: `function_suffix=dct.get("function_suffix", "_" + str(isuffix))`. -/
@@ -209,7 +211,7 @@ def Fn.base (sc : Scope) (f : Fn) : Rec :=
     templated := !f.tinst.isEmpty || f.usesT, generics := genericSuffixes 0 f.generics,
     hasBuf := f.hasBuf, isCtor := f.isCtor,
     key := if f.isCtor then sc.derived else f.name,
-    hasDefault := decide (f.ndefaults > 0) }
+    hasDefault := decide (f.ndefaults > 0), cppIf := f.cppIf }
 
 /-- `has_default_args`: the `k`-th clone (parameters `[:nparams - ndefaults + k]`). -/
 def defaultClone (sc : Scope) (f : Fn) (k : Nat) : Rec :=
@@ -399,6 +401,37 @@ def genericTable (sc : Scope) (sel : Rec → Bool) :
   | r :: rest, t =>
     genericTable sc sel rest
       (if r.wrap.f && sel r then tableAdd (genericKey sc r) (genericMember sc r) t else t)
+
+/-! ### members under preprocessor conditions -/
+
+/-- The members filed under `key` with their own `cpp_if`. -/
+def genericMembersCond (sc : Scope) (sel : Rec → Bool) (recs : List Rec) (key : Str) :
+    List (Str × Option Str) :=
+  (recs.filter fun r => r.wrap.f && sel r && genericKey sc r == key).map
+    fun r => (genericMember sc r, r.cppIf)
+
+/-- `wrap_class`: the `generic :: key => ...` lines of one type-bound generic as
+    (condition of the line, bindings): one line for all when no member is conditional, else one
+    line per member inside the member's own `#if`. -/
+def typeGenericLines (ms : List (Str × Option Str)) : List (Option Str × List Str) :=
+  if ms.any (fun m => m.2.isSome) then ms.map (fun m => (m.2, [m.1]))
+  else [(none, ms.map (·.1))]
+
+/-- `dump_generic_interfaces`: (condition around the interface, (condition, procedure) of each
+    `module procedure` line): the common condition is promoted to the interface when all
+    members carry the same one. -/
+def interfaceLines (ms : List (Str × Option Str)) : Option Str × List (Option Str × Str) :=
+  match ms with
+  | [] => (none, [])
+  | m0 :: _ =>
+    if m0.2.isSome && ms.all (fun m => m.2 == m0.2) then (m0.2, ms.map (fun m => (none, m.1)))
+    else (none, ms.map (fun m => (m.2, m.1)))
+
+/-- Condition in force for a line: that of the enclosing block or its own. -/
+def effective (outer inner : Option Str) : Option Str :=
+  match outer with
+  | some c => some c
+  | none => inner
 
 def tableGet (key : Str) : List (Str × List Str) → List Str
   | [] => []
